@@ -102,7 +102,7 @@ export function makeAttr(b, rng, kind, st) {
     case 'strMultiline': return { ...A.attr(plain(), { k: 'str', raw: 'l1\n      l2\n    l3' }), kind, dynamic: false };
     case 'strTab': return { ...A.attr(plain(), { k: 'str', raw: 'a\tb\t' }), kind, dynamic: false };
     case 'strCR': return { ...A.attr(plain(), { k: 'str', raw: 'c1  \r  c2\r\n  c3' }), kind, dynamic: false };
-    case 'strEdges': return { ...A.attr(plain(), { k: 'str', raw: '  e  ' }), kind, dynamic: false };
+    case 'strEdges': return { ...A.attr(plain(), { k: 'str', raw: rng.pick(['  e  ', 'foo  \n', 'foo\n   ', ' \n bar', 'a  \r']) }), kind, dynamic: false };
     case 'strNbsp': return { ...A.attr(plain(), { k: 'str', raw: '\u00a0n\u00a0\n  \u3000m ' }), kind, dynamic: false };
     case 'strBackslash': return { ...A.attr(plain(), { k: 'str', raw: 'C:\\dir\\', decoded: 'C:\\dir\\' }), kind, dynamic: false };
     case 'strEntity': return { ...A.attr(plain(), { k: 'str', raw: 'a&amp;b&lt;', decoded: 'a&b<' }), kind, dynamic: false };
